@@ -47,6 +47,7 @@ type sigRun struct {
 	inst    int
 	pipe    bool // the result destination is a FIFO that the driver reads slowly (a slow sink)
 	gmp     int  // GOMAXPROCS of the pandora process (0: default)
+	pools   int  // instance pools, each with its own aggregator and result file
 }
 
 // slowPipe: a FIFO with a one-page buffer that is drained at a few MB/s: the aggregator's flush of
@@ -131,40 +132,44 @@ func sigRunOne(cfg sigRun, bin, target string, w *vt.Writer) {
 	if cfg.sig == "none" {
 		dur = fmt.Sprintf("%dms", cfg.afterMs)
 	}
-	var result string
-	out := filepath.Join(dir, "result.out")
-	if cfg.kind == "vphout" {
-		result = fmt.Sprintf("{type: vphout, destination: %q, id: true", out)
+	if cfg.pools == 0 {
+		cfg.pools = 1
+	}
+	// every pool has its own aggregator and result destination; the counters are shared (sums)
+	var outs []string
+	var sps []*slowPipe
+	conf := "pools:\n"
+	for j := 0; j < cfg.pools; j++ {
+		out := filepath.Join(dir, fmt.Sprintf("result%d.out", j))
+		outs = append(outs, out)
+		var result string
+		if cfg.kind == "vphout" {
+			result = fmt.Sprintf("{type: vphout, destination: %q, id: true", out)
+		} else {
+			result = fmt.Sprintf("{type: vjsonlines, sink: {type: file, path: %q}", out)
+		}
 		if cfg.q > 0 {
 			result += fmt.Sprintf(", sample-queue-size: %d", cfg.q)
 		}
 		result += "}"
-	} else {
-		result = fmt.Sprintf("{type: vjsonlines, sink: {type: file, path: %q}", out)
-		if cfg.q > 0 {
-			result += fmt.Sprintf(", sample-queue-size: %d", cfg.q)
+		if cfg.pipe {
+			sps = append(sps, newSlowPipe(out))
 		}
-		result += "}"
-	}
-	var sp *slowPipe
-	if cfg.pipe {
-		sp = newSlowPipe(out)
-	}
-	conf := fmt.Sprintf(`pools:
-  - id: p
+		conf += fmt.Sprintf(`  - id: p%d
     gun: {type: http, target: %q}
     ammo: {type: uri, file: %q}
     result: %s
     rps: {type: const, ops: %d, duration: %s}
     startup: {type: once, times: %d}
-log: {level: error}
-`, target, filepath.Join(dir, "ammo.uri"), result, cfg.rps, dur, cfg.inst)
+`, j, target, filepath.Join(dir, "ammo.uri"), result, cfg.rps/cfg.pools, dur, (cfg.inst+cfg.pools-1)/cfg.pools)
+	}
+	conf += "log: {level: error}\n"
 	confPath := filepath.Join(dir, "load.yaml")
 	if err := os.WriteFile(confPath, []byte(conf), 0644); err != nil {
 		panic(err)
 	}
 	w.Emit(map[string]interface{}{"ev": "Start", "run": cfg.run, "kind": cfg.kind, "sig": cfg.sig,
-		"after_ms": cfg.afterMs, "q": cfg.q, "rps": cfg.rps, "inst": cfg.inst, "pipe": cfg.pipe, "gomaxprocs": cfg.gmp})
+		"after_ms": cfg.afterMs, "q": cfg.q, "rps": cfg.rps, "inst": cfg.inst, "pipe": cfg.pipe, "gomaxprocs": cfg.gmp, "pools": cfg.pools})
 	logf, _ := os.Create(filepath.Join(dir, "pandora.log"))
 	defer logf.Close()
 	cmd := exec.Command(bin, confPath)
@@ -183,7 +188,7 @@ log: {level: error}
 	retPath, enterPath := filepath.Join(dir, "ret.bin"), filepath.Join(dir, "enter.bin")
 	fail := func(what string) {
 		cmd.Process.Kill()
-		if sp != nil {
+		for _, sp := range sps {
 			sp.finish()
 		}
 		b, _ := os.ReadFile(filepath.Join(dir, "pandora.log"))
@@ -246,19 +251,24 @@ log: {level: error}
 	ev := map[string]interface{}{"ev": "Exit", "run": cfg.run, "status": status, "wait_ms": waitMs,
 		"entered": fileSize(enterPath), "returned": fileSize(retPath),
 		"lines": 0, "malformed": 0, "last_complete": true, "agg_returned": false, "dropped": 0, "agg_err": ""}
-	var b []byte
-	if sp != nil {
-		b = sp.finish()
-	} else {
-		b, _ = os.ReadFile(out)
-	}
 	lb, _ := os.ReadFile(filepath.Join(dir, "pandora.log"))
 	ev["forced"] = bytes.Contains(lb, []byte("timeout exceeded")) || bytes.Contains(lb, []byte("Another signal received"))
-	if len(b) > 0 {
+	nlines, bad, complete := 0, 0, true
+	for j, out := range outs {
+		var b []byte
+		if cfg.pipe {
+			b = sps[j].finish()
+		} else {
+			b, _ = os.ReadFile(out)
+		}
+		if len(b) == 0 {
+			continue
+		}
 		parts := bytes.Split(b, []byte{'\n'})
 		partial, lines := parts[len(parts)-1], parts[:len(parts)-1]
-		ev["last_complete"] = len(partial) == 0 // the partial last line is not counted as a line
-		bad := 0
+		if len(partial) != 0 {
+			complete = false // the partial last line is not counted as a line
+		}
 		for _, ln := range lines {
 			ok := false
 			if cfg.kind == "vphout" {
@@ -271,16 +281,24 @@ log: {level: error}
 				bad++
 			}
 		}
-		ev["lines"], ev["malformed"] = len(lines), bad
+		nlines += len(lines)
 	}
-	if rb, err := os.ReadFile(filepath.Join(dir, "run.json")); err == nil && len(rb) > 0 {
-		var rec struct {
-			Err     string `json:"err"`
-			Dropped int    `json:"dropped"`
+	ev["lines"], ev["malformed"], ev["last_complete"] = nlines, bad, complete
+	// one record per aggregator whose Run returned before the process exited
+	if rb, err := os.ReadFile(filepath.Join(dir, "run.json")); err == nil {
+		nrec, dropped, aggErr := 0, 0, ""
+		for _, ln := range bytes.Split(bytes.TrimSpace(rb), []byte{'\n'}) {
+			var rec struct {
+				Err     string `json:"err"`
+				Dropped int    `json:"dropped"`
+			}
+			if len(ln) > 0 && json.Unmarshal(ln, &rec) == nil {
+				nrec++
+				dropped += rec.Dropped
+				aggErr += rec.Err
+			}
 		}
-		if json.Unmarshal(bytes.TrimSpace(rb), &rec) == nil {
-			ev["agg_returned"], ev["dropped"], ev["agg_err"] = true, rec.Dropped, rec.Err
-		}
+		ev["agg_returned"], ev["dropped"], ev["agg_err"] = nrec == cfg.pools, dropped, aggErr
 	}
 	w.Emit(ev)
 }
@@ -340,6 +358,10 @@ func aggSigMain(args []string) {
 		}
 		cfg.pipe = (n/3)%2 == 0
 		cfg.gmp = []int{0, 1, 0, 2}[n%4]
+		cfg.pools = 1
+		if n%5 == 2 {
+			cfg.pools = 2
+		}
 		cfgs = append(cfgs, cfg)
 	}
 	sem := make(chan struct{}, *par)
